@@ -5,6 +5,7 @@
 -/
 import SvtVerif.Gen.RelDist
 import SvtVerif.Lemmas.Bits
+import SvtVerif.Lemmas.Reorder
 
 namespace C22
 set_option linter.unusedSimpArgs false
@@ -121,5 +122,33 @@ example : relDistInterPred 1 7 0 127 = 1 ∧ relDistInterPred 1 7 127 0 = -1 := 
 theorem relDist_far_reference_sign_flips :
     relDistInterPred 1 7 (200 % 128) ((200 - 64) % 128) = -64 ∧
     relDistInterPred 1 7 (200 % 128) ((200 - 96) % 128) = -32 := by decide
+
+end C22
+
+/-! ## Circular reorder queues: any stream length (model `Model/Reorder.lean`, lemmas `Lemmas/Reorder.lean`) -/
+namespace C22
+open Reorder
+
+/-- **Any stream length.**  A reorder queue of depth `D` indexed by `picture_number % D` (packetization style) emits
+    `0,1,…,n−1` in order and never overwrites an occupied slot, for every `n` (the queue wraps any number of times),
+    provided no arrival is `D` or more ahead of the oldest picture still missing.  The real queue code
+    (`get_reorder_queue_pos`/`get_reorder_queue_entry` of EbPacketizationProcess.c) is run against this model on
+    streams of 10⁴–6·10⁴ entries by the check. -/
+theorem circ_queue_inorder (D : Nat) (hD : 0 < D) (arrivals : List Nat) (n : Nat)
+    (hperm : arrivals.Perm (List.range n)) (hwin : Windowed D arrivals) :
+    (run D arrivals).out = List.range n ∧ (run D arrivals).clobbered = false :=
+  run_inorder D hD arrivals n hperm hwin
+
+/-- The picture-decision style index `(pn − head.pn) + headIdx` with a single wrap equals `pn % D` inside the window. -/
+theorem mod_index_eq_window_index (D pn headPn : Nat) (hD : 0 < D) (h1 : headPn ≤ pn) (h2 : pn < headPn + D) :
+    windowIndex D (headPn % D) (pn - headPn) = pn % D :=
+  windowIndex_eq D pn headPn hD h1 h2
+
+/-- The window hypothesis is necessary: an arrival `D` ahead of the head clobbers / misorders (witnesses). -/
+theorem circ_queue_window_needed :
+    (¬ Windowed 4 [5, 1, 0, 2, 3, 4] ∧ (run 4 [5, 1, 0, 2, 3, 4]).clobbered = true) ∧
+    (¬ Windowed 4 [4, 0, 1, 2, 3] ∧ (run 4 [4, 0, 1, 2, 3]).out = [4, 1, 2, 3, 0]) := by decide
+
+example : Windowed 4 [1, 0, 3, 2, 5, 4, 7, 6, 9, 8] ∧ [1, 0, 3, 2, 5, 4, 7, 6, 9, 8].Perm (List.range 10) := by decide
 
 end C22
